@@ -380,7 +380,7 @@ def build_world(wspec, inst: Inst):
             for f, val in row:
                 kw[f] = _resolve(val, by_spec, inst)
             cls = CLASSES[cname]
-            if "tag" not in kw:
+            if "tag" not in kw and "tag" in getattr(cls, "__dataclass_fields__", {"tag": None}):
                 kw["tag"] = f"{domkey}{i}"
             objs.append(cls(**kw))
         by_spec[domkey] = objs
